@@ -9,7 +9,8 @@ LEVEL = ("Mechanism level: the first canonicalisation runs only on the `canon pe
          "receives no stream producer and reaches no stream accessor; two different executed canons never merge and an "
          "executed canon wins over a pending request; the three canon instructions share one skeleton and their producers "
          "read the whole stream without filtering; the stored tetraplet is re-verified before the epilog. Equality of canon "
-         "values across peers in all histories is not decided.")
+         "values across peers in all histories is not decided."
+         " Added: a seen canon is rebuilt 1:1 from the stored element list (no dropping adaptor, no in-place list operation).")
 
 CANON_TYPES = ["::Canon<'i>", "::CanonMap<'i>", "::CanonStreamMapScalar<'i>"]
 STREAM_ACCESSORS = ("Streams::get", "Streams::get_mut", "StreamMaps::get", "StreamMaps::get_mut", "Stream::iter", "Stream::slice_iter",
